@@ -1015,4 +1015,66 @@ class LocaleNames(Sub):
         return None
 
 
-SUBS = [Histories(), Closure(), Retention(), Immutable(), ModuleState(), ProcessState(), ResultAliasing(), EvaluationScale(), Clock(), LocaleNames()]
+DECIMAL_FORMULAS = ['PV(0.05,10,-100)', 'PV(0.05,10,-100,50,1)', 'PV(1,10,-100)', 'PV(1e-9,360,-1,0,0)', 'PV(0.1/12,12*30,-1500.5)', 'ROUNDUP(2.675,2)',
+                    'ROUNDDOWN(-1.005,2)', 'CEILING(0.7,0.1)', 'FLOOR(-2.5,0.3)', 'QUOTIENT(1,0.1)', 'MOD(1,0.1)', 'MOD(-7.5,2)', 'ROUND(2.675,2)',
+                    'AVEDEV(1.1,2.2,3.7)', 'SLOPE({1.5,2.5,4},{1,2,3.5})', 'SUM(0.1,0.2,0.3)', 'AVERAGE(0.1,0.2,0.4)', 'TEXT(1234.5678,"0.00")', 'BASE(255.0,16)',
+                    '0.1+0.2', '1/3', '2^0.5', '10^30+1', 'DOLLARDE(1.02,16)', 'VAR.S(1.5,2.5,4.25)', 'STDEV.P(1.5,2.5,4.25)', 'GEOMEAN(1.5,2.5)', 'HARMEAN(1.5,2.5)',
+                    'MEDIAN(1.5,2.5)', 'FV(0.05,10,-100)', 'PMT(0.05,10,1000)', 'NPER(0.05,-100,1000)', 'DATE(2020,1,31)+0.5', 'ROUNDUP(xa,1)', 'PV(xa,3,-2)']
+
+
+def _decimal_contexts():
+    import decimal
+    c1 = decimal.Context(prec=28)
+    c1.traps[decimal.FloatOperation] = True
+    c2 = decimal.Context(prec=28)
+    c2.traps[decimal.Inexact] = True
+    c2.traps[decimal.Rounded] = True
+    c3 = decimal.Context(prec=3, rounding=decimal.ROUND_UP)
+    c4 = decimal.Context(prec=9, Emax=9, Emin=-9, rounding=decimal.ROUND_DOWN)
+    c5 = decimal.Context(prec=28, traps=[])
+    return [('FloatOperation trapped', c1), ('Inexact and Rounded trapped', c2), ('3 digits, rounding up', c3), ('exponents within +-9, rounding down', c4),
+            ('no signal trapped', c5)]
+
+
+class DecimalContext(Sub):
+    name = 'c02.decimal_context'
+    rule = ('the decimal context of the calling thread (precision, rounding, exponent limits, trapped signals - per-thread state that a '
+            'host doing its own money arithmetic sets) is an environment answer like the clock and the locale: %d numeric formulas '
+            '(PV and the other financial functions, the rounding family, statistics, operators) x 6 contexts (one of them inherited from a changed decimal.DefaultContext) give what they give under '
+            'the default context; non-trivial = all' % len(DECIMAL_FORMULAS))
+    min_cases = 30
+    min_nontrivial = 30
+
+    def cases(self, tier, unit):
+        for i in range(len(DECIMAL_FORMULAS)):
+            yield [i]
+
+    def check(self, env, case):
+        import decimal
+        f = DECIMAL_FORMULAS[case[0]]
+        env.nt()
+        saved = decimal.getcontext()
+        try:
+            decimal.setcontext(decimal.Context())
+            base = env.evo(f, {'xa': 0.125})
+            for label, ctx in _decimal_contexts() + [('decimal.DefaultContext changed before the thread started (3 digits, FloatOperation trapped)', None)]:
+                keep = (decimal.DefaultContext.prec, decimal.DefaultContext.traps[decimal.FloatOperation])
+                if ctx is None:
+                    decimal.DefaultContext.prec = 3
+                    decimal.DefaultContext.traps[decimal.FloatOperation] = True
+                    ctx = decimal.Context()
+                decimal.setcontext(ctx)
+                try:
+                    o = env.evo(f, {'xa': 0.125})
+                finally:
+                    decimal.DefaultContext.prec, decimal.DefaultContext.traps[decimal.FloatOperation] = keep
+                    decimal.setcontext(decimal.Context())
+                if o != base:
+                    return fail('%s gives %r in a thread whose decimal context is: %s; under the default context it gives %r - the outcome depends '
+                                'on more than the formula and its bindings' % (f, o, label, base), base, o)
+        finally:
+            decimal.setcontext(saved)
+        return None
+
+
+SUBS = [Histories(), Closure(), Retention(), Immutable(), ModuleState(), ProcessState(), ResultAliasing(), EvaluationScale(), Clock(), LocaleNames(), DecimalContext()]
